@@ -6,12 +6,44 @@ use super::ast::*;
 use super::lexer::{Lexer, Token, TokenKind};
 use grafeo_common::utils::error::{Error, QueryError, QueryErrorKind, Result};
 
+/// Deepest nesting of group graph patterns, subqueries, expressions, property paths and
+/// blank node property lists the parser follows.
+///
+/// The parser is recursive descent and every later stage (translator, optimizer, planner,
+/// `Drop`) walks the tree recursively as well, so unbounded nesting in the query text
+/// overflows the stack, which aborts the process instead of returning an error. One level
+/// costs the parser several KiB of stack in a debug build, so 128 levels stay well inside
+/// the 2 MiB stack of a spawned thread.
+const MAX_NESTING_DEPTH: usize = 128;
+
+/// Tallest expression tree the parser builds.
+///
+/// Operator chains such as `a && b && c` nest to the left without any recursion in the
+/// parser, so they are bounded through the height of the tree they produce rather than
+/// through the nesting depth.
+const MAX_EXPRESSION_DEPTH: usize = 256;
+
+/// Most triple patterns, group elements (OPTIONAL, FILTER, nested groups, ...) and UNION
+/// branches in the graph patterns of one query.
+///
+/// Each of them becomes (at least) one operator stacked on top of the previous ones in the
+/// query plan, which the later stages again walk recursively. The triples of INSERT DATA,
+/// DELETE DATA and of templates are plain lists and are not counted.
+const MAX_PATTERN_ELEMENTS: usize = 2048;
+
 /// SPARQL Parser.
 pub struct Parser<'a> {
     lexer: Lexer<'a>,
     current: Token,
     /// Source string for error reporting.
     source: &'a str,
+    /// Number of nested productions currently being parsed.
+    depth: usize,
+    /// Height of the tallest expression tree completed since the enclosing tree node was
+    /// started (see `begin_node`).
+    height: usize,
+    /// Number of graph pattern elements parsed so far.
+    elements: usize,
 }
 
 impl<'a> Parser<'a> {
@@ -23,7 +55,53 @@ impl<'a> Parser<'a> {
             lexer,
             current,
             source,
+            depth: 0,
+            height: 0,
+            elements: 0,
         }
+    }
+
+    /// Enters a production that can contain itself; pair with `leave`.
+    fn enter(&mut self) -> Result<()> {
+        if self.depth >= MAX_NESTING_DEPTH {
+            return Err(self.error("query nested too deeply"));
+        }
+        self.depth += 1;
+        Ok(())
+    }
+
+    /// Leaves a production entered with `enter`.
+    fn leave(&mut self) {
+        self.depth -= 1;
+    }
+
+    /// Starts a node of the expression tree: the operands parsed from here on are its
+    /// children. Returns the height recorded for the node's siblings, for `end_node`.
+    fn begin_node(&mut self) -> usize {
+        std::mem::take(&mut self.height)
+    }
+
+    /// Puts one node on top of the operands parsed since `begin_node`.
+    fn grow(&mut self) -> Result<()> {
+        if self.height >= MAX_EXPRESSION_DEPTH {
+            return Err(self.error("expression nested too deeply"));
+        }
+        self.height += 1;
+        Ok(())
+    }
+
+    /// Ends the node started by the `begin_node` that returned `siblings`.
+    fn end_node(&mut self, siblings: usize) {
+        self.height = self.height.max(siblings);
+    }
+
+    /// Counts `n` more graph pattern elements.
+    fn count_elements(&mut self, n: usize) -> Result<()> {
+        self.elements = self.elements.saturating_add(n);
+        if self.elements > MAX_PATTERN_ELEMENTS {
+            return Err(self.error("query has too many graph pattern elements"));
+        }
+        Ok(())
     }
 
     /// Parses the entire query.
@@ -609,6 +687,13 @@ impl<'a> Parser<'a> {
     }
 
     fn parse_group_graph_pattern(&mut self) -> Result<GraphPattern> {
+        self.enter()?;
+        let pattern = self.parse_group_graph_pattern_body();
+        self.leave();
+        pattern
+    }
+
+    fn parse_group_graph_pattern_body(&mut self) -> Result<GraphPattern> {
         self.expect(TokenKind::LeftBrace)?;
 
         let mut patterns = Vec::new();
@@ -618,6 +703,7 @@ impl<'a> Parser<'a> {
                 return Err(self.error("unexpected end of input in graph pattern"));
             }
 
+            self.count_elements(1)?;
             patterns.push(self.parse_graph_pattern_element()?);
             // Optional '.' after a non-triples pattern (FILTER(...) . ?s ?p ?o)
             if self.current.kind == TokenKind::Dot {
@@ -727,6 +813,13 @@ impl<'a> Parser<'a> {
     }
 
     fn parse_group_or_subquery(&mut self) -> Result<GraphPattern> {
+        self.enter()?;
+        let pattern = self.parse_group_or_subquery_body();
+        self.leave();
+        pattern
+    }
+
+    fn parse_group_or_subquery_body(&mut self) -> Result<GraphPattern> {
         // Save position to potentially backtrack
         let saved_kind = self.current.kind.clone();
 
@@ -746,6 +839,7 @@ impl<'a> Parser<'a> {
                 if self.current.kind == TokenKind::Eof {
                     return Err(self.error("unexpected end of input in graph pattern"));
                 }
+                self.count_elements(1)?;
                 patterns.push(self.parse_graph_pattern_element()?);
                 if self.current.kind == TokenKind::Dot {
                     self.advance();
@@ -764,6 +858,7 @@ impl<'a> Parser<'a> {
             let mut alternatives = vec![first];
             while self.current.kind == TokenKind::Union {
                 self.advance();
+                self.count_elements(1)?;
                 let pattern = self.parse_group_graph_pattern()?;
                 alternatives.push(pattern);
             }
@@ -869,7 +964,9 @@ impl<'a> Parser<'a> {
                 break;
             }
 
+            let before = triples.len();
             self.parse_triples_same_subject(&mut triples)?;
+            self.count_elements(triples.len() - before)?;
 
             // Optional trailing dot
             if self.current.kind == TokenKind::Dot {
@@ -976,6 +1073,13 @@ impl<'a> Parser<'a> {
     }
 
     fn parse_object(&mut self, triples: &mut Vec<TriplePattern>) -> Result<TripleTerm> {
+        self.enter()?;
+        let object = self.parse_object_body(triples);
+        self.leave();
+        object
+    }
+
+    fn parse_object_body(&mut self, triples: &mut Vec<TriplePattern>) -> Result<TripleTerm> {
         if self.current.kind == TokenKind::LeftBracket {
             // Blank node with property list
             self.advance();
@@ -998,6 +1102,13 @@ impl<'a> Parser<'a> {
     }
 
     fn parse_var_or_term(&mut self) -> Result<TripleTerm> {
+        self.enter()?;
+        let term = self.parse_var_or_term_body();
+        self.leave();
+        term
+    }
+
+    fn parse_var_or_term_body(&mut self) -> Result<TripleTerm> {
         match self.current.kind {
             TokenKind::Variable => {
                 let name = self.expect_variable_name()?;
@@ -1057,7 +1168,10 @@ impl<'a> Parser<'a> {
     // ==================== Property Paths ====================
 
     fn parse_property_path(&mut self) -> Result<PropertyPath> {
-        self.parse_path_alternative()
+        self.enter()?;
+        let path = self.parse_path_alternative();
+        self.leave();
+        path
     }
 
     fn parse_path_alternative(&mut self) -> Result<PropertyPath> {
@@ -1327,15 +1441,20 @@ impl<'a> Parser<'a> {
     // ==================== Expressions ====================
 
     fn parse_expression(&mut self) -> Result<Expression> {
-        self.parse_conditional_or_expression()
+        self.enter()?;
+        let expression = self.parse_conditional_or_expression();
+        self.leave();
+        expression
     }
 
     fn parse_conditional_or_expression(&mut self) -> Result<Expression> {
+        let siblings = self.begin_node();
         let mut expr = self.parse_conditional_and_expression()?;
 
         while self.current.kind == TokenKind::OrOp {
             self.advance();
             let right = self.parse_conditional_and_expression()?;
+            self.grow()?;
             expr = Expression::Binary {
                 left: Box::new(expr),
                 operator: BinaryOperator::Or,
@@ -1343,15 +1462,18 @@ impl<'a> Parser<'a> {
             };
         }
 
+        self.end_node(siblings);
         Ok(expr)
     }
 
     fn parse_conditional_and_expression(&mut self) -> Result<Expression> {
+        let siblings = self.begin_node();
         let mut expr = self.parse_value_logical()?;
 
         while self.current.kind == TokenKind::AndOp {
             self.advance();
             let right = self.parse_value_logical()?;
+            self.grow()?;
             expr = Expression::Binary {
                 left: Box::new(expr),
                 operator: BinaryOperator::And,
@@ -1359,6 +1481,7 @@ impl<'a> Parser<'a> {
             };
         }
 
+        self.end_node(siblings);
         Ok(expr)
     }
 
@@ -1367,6 +1490,13 @@ impl<'a> Parser<'a> {
     }
 
     fn parse_relational_expression(&mut self) -> Result<Expression> {
+        let siblings = self.begin_node();
+        let expr = self.parse_relational_operands()?;
+        self.end_node(siblings);
+        Ok(expr)
+    }
+
+    fn parse_relational_operands(&mut self) -> Result<Expression> {
         let mut expr = self.parse_numeric_expression()?;
 
         let operator = match self.current.kind {
@@ -1379,6 +1509,7 @@ impl<'a> Parser<'a> {
             TokenKind::In => {
                 self.advance();
                 let list = self.parse_expression_list()?;
+                self.grow()?;
                 return Ok(Expression::In {
                     expression: Box::new(expr),
                     list,
@@ -1388,6 +1519,7 @@ impl<'a> Parser<'a> {
                 self.advance();
                 self.expect(TokenKind::In)?;
                 let list = self.parse_expression_list()?;
+                self.grow()?;
                 return Ok(Expression::NotIn {
                     expression: Box::new(expr),
                     list,
@@ -1399,6 +1531,7 @@ impl<'a> Parser<'a> {
         if let Some(op) = operator {
             self.advance();
             let right = self.parse_numeric_expression()?;
+            self.grow()?;
             expr = Expression::Binary {
                 left: Box::new(expr),
                 operator: op,
@@ -1414,6 +1547,7 @@ impl<'a> Parser<'a> {
     }
 
     fn parse_additive_expression(&mut self) -> Result<Expression> {
+        let siblings = self.begin_node();
         let mut expr = self.parse_multiplicative_expression()?;
 
         loop {
@@ -1424,6 +1558,7 @@ impl<'a> Parser<'a> {
             };
             self.advance();
             let right = self.parse_multiplicative_expression()?;
+            self.grow()?;
             expr = Expression::Binary {
                 left: Box::new(expr),
                 operator,
@@ -1431,10 +1566,12 @@ impl<'a> Parser<'a> {
             };
         }
 
+        self.end_node(siblings);
         Ok(expr)
     }
 
     fn parse_multiplicative_expression(&mut self) -> Result<Expression> {
+        let siblings = self.begin_node();
         let mut expr = self.parse_unary_expression()?;
 
         loop {
@@ -1445,6 +1582,7 @@ impl<'a> Parser<'a> {
             };
             self.advance();
             let right = self.parse_unary_expression()?;
+            self.grow()?;
             expr = Expression::Binary {
                 left: Box::new(expr),
                 operator,
@@ -1452,40 +1590,45 @@ impl<'a> Parser<'a> {
             };
         }
 
+        self.end_node(siblings);
         Ok(expr)
     }
 
     fn parse_unary_expression(&mut self) -> Result<Expression> {
-        match self.current.kind {
-            TokenKind::Bang => {
-                self.advance();
-                let operand = self.parse_primary_expression()?;
-                Ok(Expression::Unary {
-                    operator: UnaryOperator::Not,
-                    operand: Box::new(operand),
-                })
-            }
-            TokenKind::Plus => {
-                self.advance();
-                let operand = self.parse_primary_expression()?;
-                Ok(Expression::Unary {
-                    operator: UnaryOperator::Plus,
-                    operand: Box::new(operand),
-                })
-            }
-            TokenKind::MinusOp => {
-                self.advance();
-                let operand = self.parse_primary_expression()?;
-                Ok(Expression::Unary {
-                    operator: UnaryOperator::Minus,
-                    operand: Box::new(operand),
-                })
-            }
-            _ => self.parse_primary_expression(),
-        }
+        let operator = match self.current.kind {
+            TokenKind::Bang => UnaryOperator::Not,
+            TokenKind::Plus => UnaryOperator::Plus,
+            TokenKind::MinusOp => UnaryOperator::Minus,
+            _ => return self.parse_primary_expression(),
+        };
+        self.advance();
+        let siblings = self.begin_node();
+        let operand = self.parse_primary_expression()?;
+        self.grow()?;
+        self.end_node(siblings);
+        Ok(Expression::Unary {
+            operator,
+            operand: Box::new(operand),
+        })
     }
 
+    /// Parses a primary expression. All but variables, IRIs, literals and BOUND have
+    /// operands of their own and are one node of the expression tree on top of them.
     fn parse_primary_expression(&mut self) -> Result<Expression> {
+        let siblings = self.begin_node();
+        let expression = self.parse_primary_node()?;
+        match expression {
+            Expression::Variable(_)
+            | Expression::Iri(_)
+            | Expression::Literal(_)
+            | Expression::Bound(_) => {}
+            _ => self.grow()?,
+        }
+        self.end_node(siblings);
+        Ok(expression)
+    }
+
+    fn parse_primary_node(&mut self) -> Result<Expression> {
         match self.current.kind {
             TokenKind::LeftParen => {
                 self.advance();
@@ -2286,5 +2429,189 @@ mod tests {
         )
         .unwrap();
         assert!(matches!(query.query_form, QueryForm::Select(_)));
+    }
+
+    fn limit_error(query: &str) -> String {
+        match parse(query) {
+            Ok(_) => panic!("expected a nesting error"),
+            // The rendered error quotes the query, keep only the message line
+            Err(e) => e.to_string().lines().next().unwrap_or_default().to_string(),
+        }
+    }
+
+    #[test]
+    fn test_deeply_nested_query_is_an_error() {
+        // Moderate nesting still parses
+        let ok = format!(
+            "SELECT * WHERE {}{{ ?s ?p ?o }}{}",
+            "{ ".repeat(50),
+            " }".repeat(50)
+        );
+        assert!(parse(&ok).is_ok());
+        let ok = format!(
+            "SELECT ({}1{} AS ?x) WHERE {{ }}",
+            "STR(".repeat(50),
+            ")".repeat(50)
+        );
+        assert!(parse(&ok).is_ok());
+
+        // Every nesting production reports an error instead of overflowing the stack
+        let n = 100_000;
+        let open = |s: &str| s.repeat(n);
+        for query in [
+            format!("SELECT ({}1{} AS ?x) WHERE {{ }}", open("STR("), open(")")),
+            format!("SELECT ({}1{} AS ?x) WHERE {{ }}", open("("), open(")")),
+            format!(
+                "SELECT ({}1{} AS ?x) WHERE {{ }}",
+                open("IF(true, 1, "),
+                open(")")
+            ),
+            format!(
+                "SELECT ({}1{} AS ?x) WHERE {{ }}",
+                open("COALESCE("),
+                open(")")
+            ),
+            format!("SELECT ({}1{} AS ?x) WHERE {{ }}", open("SUM("), open(")")),
+            format!("SELECT ({}true{} AS ?x) WHERE {{ }}", open("!("), open(")")),
+            format!(
+                "SELECT * WHERE {{ ?s ?p ?o FILTER({}1{}) }}",
+                open("1 IN ("),
+                open(")")
+            ),
+            format!(
+                "SELECT * WHERE {{ ?s ?p ?o FILTER {}1{} }}",
+                open("STR("),
+                open(")")
+            ),
+            format!("SELECT * WHERE {}{{ ?s ?p ?o }}{}", open("{ "), open(" }")),
+            format!(
+                "SELECT * WHERE {{ ?s ?p ?o {}{} }}",
+                open("OPTIONAL { ?s ?p ?o "),
+                open("}")
+            ),
+            format!(
+                "SELECT * WHERE {{ ?s ?p ?o {}{} }}",
+                open("MINUS { ?s ?p ?o "),
+                open("}")
+            ),
+            format!(
+                "SELECT * WHERE {{ {}?s ?p ?o{} }}",
+                open("GRAPH ?g { "),
+                open(" }")
+            ),
+            format!(
+                "SELECT * WHERE {}{{ ?s ?p ?o }}{}",
+                open("{ SELECT * WHERE "),
+                open(" }")
+            ),
+            format!(
+                "SELECT * WHERE {{ {}?s ?p ?o{} }}",
+                open("{ ?s ?p ?o } UNION { "),
+                open(" }")
+            ),
+            format!(
+                "SELECT * WHERE {{ ?s ?p ?o FILTER({}true{}) }}",
+                open("EXISTS { ?s ?p ?o FILTER("),
+                open(") }")
+            ),
+            format!(
+                "SELECT * WHERE {{ ?s {}<http://ex/p>{} ?o }}",
+                open("("),
+                open(")")
+            ),
+            format!(
+                "SELECT * WHERE {{ ?s {}<http://ex/p>{} ?o }}",
+                open("^("),
+                open(")")
+            ),
+            format!(
+                "SELECT * WHERE {{ ?s <http://ex/p> {}1{} }}",
+                open("[ <http://ex/p> "),
+                open(" ]")
+            ),
+        ] {
+            let message = limit_error(&query);
+            assert!(message.contains("nested too deeply"), "{message}");
+        }
+    }
+
+    #[test]
+    fn test_long_operator_chain_is_an_error() {
+        // A chain within the limit keeps its left-deep shape
+        let ok = format!(
+            "SELECT * WHERE {{ ?s ?p ?o FILTER({}) }}",
+            vec!["?o = 1"; 200].join(" || ")
+        );
+        assert!(parse(&ok).is_ok());
+
+        for op in [" || ", " && ", " + ", " * "] {
+            let query = format!("SELECT ({} AS ?x) WHERE {{ }}", vec!["1"; 100_000].join(op));
+            let message = limit_error(&query);
+            assert!(message.contains("nested too deeply"), "{message}");
+        }
+
+        // Chains inside nested parentheses add up
+        let query = format!(
+            "SELECT ({}1{} AS ?x) WHERE {{ }}",
+            "(".repeat(100),
+            ")+1+1+1".repeat(100)
+        );
+        let message = limit_error(&query);
+        assert!(message.contains("nested too deeply"), "{message}");
+
+        // Siblings do not add up
+        let wide = format!(
+            "SELECT * WHERE {{ ?s ?p ?o FILTER(?o IN ({})) }}",
+            vec!["STR(1 + 2)"; 10_000].join(", ")
+        );
+        assert!(parse(&wide).is_ok());
+    }
+
+    #[test]
+    fn test_too_many_pattern_elements_is_an_error() {
+        let ok = format!("SELECT * WHERE {{ {} }}", "?s ?p ?o . ".repeat(1000));
+        assert!(parse(&ok).is_ok());
+
+        for query in [
+            format!("SELECT * WHERE {{ {} }}", "?s ?p ?o . ".repeat(100_000)),
+            format!(
+                "SELECT * WHERE {{ ?s ?p {} }}",
+                vec!["?o"; 100_000].join(", ")
+            ),
+            format!(
+                "SELECT * WHERE {{ ?s {} }}",
+                vec!["?p ?o"; 100_000].join(" ; ")
+            ),
+            format!(
+                "SELECT * WHERE {{ ?s ?p ?o {} }}",
+                "OPTIONAL { ?s ?p ?o } ".repeat(100_000)
+            ),
+            format!(
+                "SELECT * WHERE {{ ?s ?p ?o {} }}",
+                "FILTER(true) ".repeat(100_000)
+            ),
+            format!("SELECT * WHERE {{ {} }}", "{ ?s ?p ?o } ".repeat(100_000)),
+            format!(
+                "SELECT * WHERE {{ {} }}",
+                vec!["{ ?s ?p ?o }"; 100_000].join(" UNION ")
+            ),
+            format!(
+                "DELETE WHERE {{ {} }}",
+                "?s <http://ex/p> ?o . ".repeat(100_000)
+            ),
+        ] {
+            let message = limit_error(&query);
+            assert!(
+                message.contains("too many graph pattern elements"),
+                "{message}"
+            );
+        }
+
+        // The triples of INSERT DATA are a plain list and stay unlimited
+        let bulk = format!(
+            "INSERT DATA {{ {} }}",
+            "<http://ex/s> <http://ex/p> 1 . ".repeat(10_000)
+        );
+        assert!(parse(&bulk).is_ok());
     }
 }
